@@ -1,3 +1,4 @@
+import Gtree.Lemmas.SourceRefines
 import Gtree.Lemmas.Output
 /-
   C01 — text output obeys the tree-drawing rule (property theorems; helper lemmas live in Lemmas/).
@@ -89,4 +90,14 @@ example : exSpelling.Valid (items 1 exForest) := by
         | (have := hbl _ r h; simp only [maxToken]; omega)
         | (subst h; simp [maxToken])
 
+end Gtree
+
+namespace Gtree
+/-- Tie to the source, re-checked on every run: the line parser the round trip (`C01_generate_roundtrip`) is about is — row for row, parser state for parser state — `Parser.Parse` of markdown/parser.go as translated statement by statement by /verif/translate on this run (`Generated/Source.lean`): same new state (`isSharpRoot`, `spaces`, `sep`), same error, same hierarchy and item text. -/
+theorem C01_parser_is_the_source (st : PState) (row : Bytes) :
+    Src.Parser.Parse (toSrc st) row = (toSrc (parse st row).1, resSrc (parse st row).2) :=
+  Parse_src st row
+
+/-- the parser every generator starts with (`md.NewParser()` returns `&Parser{}`) is the model's initial state -/
+example : toSrc {} = { isSharpRoot := false, spaces := 0, sep := [] } := rfl
 end Gtree
